@@ -20,6 +20,8 @@ ASSUMPTIONS = ['float64 operands; NumPy reduction order differs from the model f
                'ties of max/min: the first arg-max (NumPy) is the subgradient both sides select; any other valid subgradient of '
                'the implementation is accepted by the comparison']
 TRUSTED_BASE = ['harness/tprog.py, harness/gen_ops.py']
+# ops whose VJP theorem is not (yet) part of Props/C01.lean: modelled and corresponded only
+UNPROVED = ['pow', 'rpow', 'exp', 'log', 'sqrt (pointwise calculus over the reals: Proofs/PointwiseCalc.lean, in progress)', 'max', 'min (subgradient form)']
 
 
 def build(rng, op, malformed, gen=None):
